@@ -108,8 +108,8 @@ def v1_id():
     fl = [f"{MOD}::hash_key"]
     hs = [
         Harness("id_is_spec_52", ["C13"], complete=False, bound="PASERK text of 52 bytes (k1.local.*), all three id kinds", functions=fl),
-        Harness("id_is_spec_74", ["C13"], complete=False, bound="PASERK text of 74 bytes (k1.secret.*)", functions=fl),
-        Harness("id_is_spec_76", ["C13"], complete=False, bound="PASERK text of 76 bytes (k1.public.*)", functions=fl),
+        Harness("id_is_spec_100", ["C13"], complete=False, bound="text of 100 bytes (real k1.public/k1.secret texts exceed the model capacity)", functions=fl),
+        Harness("id_is_spec_160", ["C13"], complete=False, bound="text of 160 bytes (model capacity)", functions=fl),
         Harness("id_is_spec_1", ["C13"], complete=False, bound="text of 1 byte", functions=fl),
         Harness("id_domain_separated_h", ["C13"], complete=False, bound="text of 10 bytes", functions=fl),
         Harness("canary_inputs_h", ["C13"], expect="fail"),
@@ -153,5 +153,31 @@ def v1_public():
     return mk("v1_public", P, "units/v1/public.rs", "core::public::verif", ["signing"], hs, [A_SHA, A_RSA, A_RNG, A_PAE])
 
 
+PKE = "paseto-v1/src/core/pke.rs"
+
+
+def v1_pke():
+    fl = [f"{PKE}::{f}" for f in ("seal_key", "unseal_key")]
+    hs = [
+        Harness("seal_is_spec_lz0", ["C07", "C05"], complete=False, bound="RSA-KEM ciphertext without a leading zero byte (255/256 of all ciphertexts)", functions=fl, timeout=2400),
+        Harness("seal_is_spec_lz1", ["C07", "C05"], complete=False, bound="RSA-KEM ciphertext with exactly one leading zero byte", functions=fl, timeout=2400),
+        Harness("unseal_accepts_spec_lz0", ["C07", "C05"], complete=False, bound="ciphertext without a leading zero byte", functions=fl, timeout=2400),
+        Harness("unseal_accepts_spec_lz1", ["C07", "C05"], complete=False, bound="ciphertext with exactly one leading zero byte", functions=fl, timeout=2400),
+        Harness("roundtrip_lz0", ["C05", "C16"], complete=False, bound="ciphertext without a leading zero byte", functions=fl, timeout=2400),
+        Harness("roundtrip_lz1", ["C05", "C16"], complete=False, bound="ciphertext with exactly one leading zero byte", functions=fl, timeout=2400),
+        Harness("unseal_rejects_tamper_h", ["C06"], complete=False, bound="flip position and bit symbolic; decrypted integer without leading zero byte", functions=fl, timeout=3600),
+        Harness("seal_fail_closed_h", ["C16"], functions=fl, timeout=2400),
+        Harness("canary_inputs_h", ["C05", "C06", "C07", "C16"], expect="fail", timeout=2400),
+    ]
+    for n in (0, 79, 591, 592, 593):
+        hs.append(Harness(f"unseal_len_{n}", ["C04", "C06"], complete=False, bound=f"blob length {n}", functions=[f"{PKE}::unseal_key"], timeout=2400))
+    # own group + vmodel-core feature "big": the 512-byte RSA values need MCAP = 560 / DRAW_CAP = 512; the other v1 units keep the
+    # default capacities (and their speed), so v1_pke is built separately from the "v1" group
+    u = mk("v1_pke", PKE, "units/v1/pke.rs", "core::pke::verif", ["pke"], hs, [A_RSA, A_SHA, A_HMAC, A_AES, A_RNG])
+    u.group = "v1pke"
+    u.dev_deps = {"paseto-v1/Cargo.toml": ['vspec = { path = "../verif-models/vspec" }', 'vmodel-core = { path = "../verif-models/vmodel-core", features = ["big"] }']}
+    return u
+
+
 def units():
-    return [v1_local(), v1_public(), v1_pie(), v1_pbkw(), v1_id()]
+    return [v1_local(), v1_public(), v1_pie(), v1_pbkw(), v1_pke(), v1_id()]
